@@ -270,22 +270,84 @@ func c6Check(c *Ctx, lv map[string]int64) {
 	}
 	// terminalHookOverride
 	th := c.Func(ZapPath, "terminalHookOverride")
-	if c.Anchor("R6.1", "zap.terminalHookOverride", th != nil) {
+	cwa := c.Named(CorePath, "CheckWriteAction")
+	if c.Anchor("R6.1", "zap.terminalHookOverride(default, override) / zapcore.CheckWriteAction", th != nil && len(th.Params) == 2 && cwa != nil) {
+		// decided by exploring the function with the override fixed to each kind of value in turn: nil, every
+		// CheckWriteAction constant, and a non-nil hook of some other type
 		def, ov := th.Params[0], th.Params[1]
-		for k, r := range Returns(th) {
-			v := Strip(RetVals(r)[0])
-			dnf := PathConds(r.Block())
-			switch v {
-			case ssa.Value(def):
-				ok, cex := AllDisjunctsHave(dnf, func(s string) bool { return s == "override == nil" || s == "override == 0" })
-				c.Check(ok, "R6.1", th.String(), "default-for-nil-or-noop#"+itoa(k+1), r.Pos(), "the default is returned exactly for nil or WriteThenNoop (counter-example %v)", cex)
-			case ssa.Value(ov):
-				ok1, _ := AllDisjunctsHave(dnf, func(s string) bool { return s == "override != nil" })
-				ok2, _ := AllDisjunctsHave(dnf, func(s string) bool { return s == "override != 0" })
-				c.Check(ok1 && ok2, "R6.1", th.String(), "override-otherwise#"+itoa(k+1), r.Pos(), "the configured hook is used only when it is neither nil nor WriteThenNoop")
-			default:
-				c.Bad("R6.1", th.String(), "return#"+itoa(k+1), r.Pos(), "unexpected return %s", Desc(v))
+		type ocase struct {
+			name string
+			init func(st *ConcState)
+			want string
+		}
+		cases := []ocase{
+			{"nil", func(st *ConcState) { st.SetNil(ov, true) }, "default"},
+			{"other-hook-type", func(st *ConcState) { st.SetDyn(ov, DynFact{}) }, "override"},
+		}
+		for _, k := range c.ConstsOfType(CorePath, cwa) {
+			kv, _ := ConstObjInt(k)
+			want := "override"
+			if k.Name() == "WriteThenNoop" {
+				want = "default"
 			}
+			cases = append(cases, ocase{k.Name(), func(st *ConcState) { st.SetDyn(ov, DynFact{Typ: cwa, K: kv, HasK: true}) }, want})
+		}
+		if len(cases) < 5 {
+			c.Bad("R6.1", th.String(), "cases", th.Pos(), "expected nil, another hook type and at least WriteThenNoop, WriteThenGoexit, WriteThenPanic, WriteThenFatal; have %d cases", len(cases))
+		}
+		for _, oc := range cases {
+			oc := oc
+			seqs, trunc := ConcPaths(th, ConcCfg{
+				Init: func(st *ConcState) {
+					st.SetDyn(def, DynFact{Typ: cwa, K: 99, HasK: true})
+					oc.init(st)
+				},
+				Event: func(in ssa.Instruction, st *ConcState) string {
+					r, ok := in.(*ssa.Return)
+					if !ok || len(r.Results) != 1 {
+						return ""
+					}
+					v := r.Results[0]
+					for i := 0; i < 16; i++ {
+						switch y := v.(type) {
+						case *ssa.ChangeInterface:
+							v = y.X
+							continue
+						case *ssa.ChangeType:
+							v = y.X
+							continue
+						}
+						if v == ssa.Value(def) || v == ssa.Value(ov) {
+							break
+						}
+						nx := st.Step(v)
+						if nx == nil {
+							break
+						}
+						v = nx
+					}
+					switch {
+					case v == ssa.Value(def):
+						return "default"
+					case v == ssa.Value(ov):
+						return "override"
+					}
+					// the same hook re-wrapped (a CheckWriteAction unwrapped by a type switch and returned)
+					if f, has := st.DynOf(v); has && f.HasK {
+						if g, h2 := st.DynOf(ov); h2 && g.HasK && g.Typ != nil && f.Typ != nil && types.Identical(f.Typ, g.Typ) && f.K == g.K {
+							return "override"
+						}
+					}
+					return "other(" + st.Desc(v) + ")"
+				},
+			})
+			var bad []string
+			for _, sq := range seqs {
+				if sq != oc.want {
+					bad = append(bad, sq)
+				}
+			}
+			c.Check(!trunc && len(seqs) > 0 && len(bad) == 0, "R6.1", th.String(), "override/"+oc.name, th.Pos(), "with the configured hook fixed to %s every path returns the %s hook (the default exactly for nil or WriteThenNoop, the configured hook otherwise); offending: %v", oc.name, oc.want, bad)
 		}
 	}
 }
